@@ -49,7 +49,7 @@ class C11(Check):
         "semgrep results are a function of (rule text, file bytes) for explicit targets (memoisation)",
         "heap-layout dependence is perturbed only crudely (ASLR off, seeded pre-allocation)",
     ]
-    budgets = {"quick": {"n": 36, "wall": 170}, "thorough": {"n": 500, "wall": 1500}}
+    budgets = {"quick": {"n": 36, "wall": 170}, "thorough": {"n": 1700, "wall": 2400}}
 
     def extra_batches(self, tier):
         """fixed experiment: aliases of one imported name (set of pairs sorted by name only was hash-seed dependent)"""
@@ -59,6 +59,17 @@ class C11(Check):
                  "perturbations": [dict(base, hashseed=h) for h in (0, 1, 2, 3, 5)]}]
 
     def gen(self, rng, i, tier):
+        if tier == "thorough" and i < len(W.snippets()):
+            # walk the whole corpus: every trigger snippet alone under three hash seeds and two heap shifts
+            r = W.snippets()[i]
+            if not r["expect_change"]:
+                return None
+            path = G.rand_path(rng, set()) if G.is_plain_snippet(r) else "proj/" + r["relpath"]
+            base = {"sched": {"seed": 0, "policy": "fifo", "line_p": 0.0}, "enum_seed": None, "workers": None, "order_seed": None}
+            perts = [dict(base, hashseed=0, heap_shift=0), dict(base, hashseed=1 + i % 7, heap_shift=1000),
+                     dict(base, hashseed=11 + i % 5, heap_shift=12345)]
+            return {"kind": "corpus-walk", "world_spec": {"files": [{"path": path, "snippets": [r["idx"]], "layout": {}}]},
+                    "include": [r["codemod"]], "perturbations": perts}
         used = set()
         r = rng.random()
         files = []
